@@ -2019,6 +2019,65 @@ theorem bbsWalk_eq_walkFrom (names : List Name) (hok : NamesOK names) (n : Nat) 
   · exact bbsWalk_sim names hok n hn isDesc hlen fuel [] _ pages (Or.inl ⟨rfl, rfl⟩) hw
 
 
+theorem setBTotal_count (names : List Name) : (setBTotal names).2 = names.length := by
+  unfold setBTotal
+  cases h : names.getLast? with
+  | none =>
+    have : names = [] := by simpa using h
+    subst this; rfl
+  | some last =>
+    simp only
+    split
+    · rfl
+    · split <;> rfl
+
+theorem setBTotal_ok (names : List Name) (nm : Name) (t : Int) (ht : fnCreateTime nm = some t) :
+    (setBTotal (names ++ [nm])).1 = .ok () := by
+  unfold setBTotal
+  simp only [List.getLast?_append, List.getLast?_singleton, Option.some_or, ht]
+  split <;> rfl
+
+/-- whatever the cached total was before, after `DoPostArticle` it is the record count of the file. -/
+theorem postArticle_total (names : List Name) (cached : Int) (nm : Name) :
+    (postArticle names cached nm).2.1 = names ++ [nm] ∧
+      (postArticle names cached nm).2.2 = ((names ++ [nm]).length : Int) := by
+  unfold postArticle
+  exact ⟨rfl, setBTotal_count _⟩
+
+theorem postArticle_ok (names : List Name) (cached : Int) (nm : Name) (t : Int) (ht : fnCreateTime nm = some t) :
+    (postArticle names cached nm).1 = .ok () := by
+  unfold postArticle
+  exact setBTotal_ok names nm t ht
+
+theorem ent_last (names : List Name) (nm : Name) :
+    ent ((names ++ [nm]).map absEntry) ((names ++ [nm]).length - 1 : Int) = absEntry nm := by
+  have h0 : (0 : Int) ≤ ((names ++ [nm]).length : Int) - 1 := by simp
+  have hlt : (((names ++ [nm]).length : Int) - 1).toNat < ((names ++ [nm]).map absEntry).length := by
+    simp
+  rw [ent_eq_getElem h0 hlt]
+  simp
+
+/-- looking the newest article up by its own name with a cached total equal to the record count finds it at
+the last position, both directions. -/
+theorem findNewest_synced (names : List Name) (nm : Name) (t : Int) (ht : fnCreateTime nm = some t)
+    (S : SortedT ((names ++ [nm]).map absEntry) ((names ++ [nm]).map absEntry).length)
+    (U : UniqueKeysT ((names ++ [nm]).map absEntry) ((names ++ [nm]).map absEntry).length) (isDesc : Bool) :
+    findNewest (names ++ [nm]) ((names ++ [nm]).length : Int) isDesc =
+      (.ok ((names ++ [nm]).length : Int), ((names ++ [nm]).length : Int)) := by
+  unfold findNewest
+  simp only [List.getLast?_append, List.getLast?_singleton, Option.some_or, ht]
+  rw [getBTotal_nonzero _ _ (by simp; omega)]
+  simp only
+  have hlen : (((names ++ [nm]).map absEntry).length : Int) = ((names ++ [nm]).length : Int) := by simp
+  have hent := ent_last names nm
+  have htm : tm ((names ++ [nm]).map absEntry) (((names ++ [nm]).length : Int) - 1) = some t := by
+    unfold tm; rw [hent]; exact ht
+  have := pttFindStart_present S U (((names ++ [nm]).length : Int) - 1) t htm isDesc
+  rw [hent, hlen] at this
+  rw [this]
+  congr 2; omega
+
+
 end Cursor
 
 end PttVerif.C06
